@@ -53,3 +53,4 @@ PROP = {
                   "init_time.elapsed() into Limiter::allows is covered only by the coarse filter scenarios. The tie model<->code is "
                   "a sampled differential check, not a proof.",
 }
+PROP['rule'] += ' Timed quota cases (2 tokens per 60 ms for the per-node stage, datagrams a whole period apart, from a permitted address or an ordinary one): every such datagram must pass (theorem whole_period_idle_is_within_quota).'
